@@ -524,6 +524,23 @@ def c18_worker(res: Result, i: int, n: int) -> None:
             # header fields need not be "derived" for a batch coming from a broker: free last_offset_delta / larger max
             b["last_offset_delta"] = rng.randint(0, 2**31 - 1)
             b["max_timestamp"] = min(2**63 - 1, b["max_timestamp"] + rng.randint(0, 10**6))
+        if k % 4 == 2:
+            # a compacted batch: the records at its head are gone, base offset / base timestamp (and last offset delta) are preserved, so the
+            # first surviving record has non-zero deltas
+            do = rng.choice((1, 2, 63, 64, 1000, 8192))
+            dt = rng.choice((0, 1, 999, 1000, 86_400_000))
+            if b["base_offset"] - do >= -(2**63) and all(r["offset_delta"] + do <= 2**31 - 1 for r in b["records"]) and b["last_offset_delta"] + do <= 2**31 - 1:
+                b["base_offset"] -= do
+                b["last_offset_delta"] += do
+                for r in b["records"]:
+                    r["offset_delta"] += do
+                res.count("compacted_batches_first_offset_delta_nonzero")
+            if b["base_timestamp"] - dt >= 0:
+                b["base_timestamp"] -= dt
+                for r in b["records"]:
+                    r["timestamp_delta"] += dt
+                res.count("compacted_batches_first_timestamp_delta_nonzero")
+            cell = dict(cell, order=cell["order"] + "+compacted")
         work.append((f"generated #{k} {cell['n']}/{cell['order']}/{cell['time']}", recref.encode_batch(b), b))
     prev_raw = None
     for label, raw, b in work:
